@@ -34,6 +34,12 @@ INVALID = {
     'array_op_out': [0, 'y', [2]],
     'array_op_out_like': [7, 'z'],
 }
+# look-alikes of VALID values that are not strings: one-element and 0-d NumPy string arrays, bytes, tuples
+for _f, _ok in (('overflow', 'wrap'), ('rounding', 'around'), ('shifting', 'trunc'), ('op_method', 'repr'),
+                ('op_input_size', 'best'), ('op_sizing', 'same'), ('const_op_sizing', 'fit'),
+                ('array_output_type', 'fxp'), ('array_op_method', 'raw'), ('dtype_notation', 'Q')):
+    INVALID[_f] = INVALID[_f] + [{'np': [_ok]}, {'np0': _ok}, {'bytes': _ok}, {'tuple': [_ok]}]
+
 VALID = {
     'overflow': OVERFLOWS, 'rounding': ROUNDINGS, 'shifting': ['expand', 'trunc', 'keep'],
     'op_method': ['raw', 'repr'], 'op_input_size': ['same', 'best'], 'op_sizing': SIZINGS,
